@@ -6,7 +6,7 @@
 (* true.  The law: every construct agrees with B.                               *)
 EXTENDS Integers, Sequences, TLC, Json
 Rows == ndJsonDeserialize("c12.ndjson")
-Constructs == <<"ifelse", "if", "not", "and", "or", "ret", "raise", "defer", "yield">>
+Constructs == <<"ifelse", "ifelsenil", "if", "not", "and", "or", "ret", "raise", "defer", "yield">>
 Agree(r) == \A k \in 1..Len(Constructs) : r.obs[k] = r.b
 VARIABLE i
 Init == i \in 1..Len(Rows)
